@@ -315,7 +315,19 @@ func runC01(outDir string, seed int64, tier string) {
 
 func runC03(outDir string, seed int64, tier string) {
 	f := feat{cut: true, ite: true, neg: true, once: true, callN: true, findall: true, nestedOr: true, topOr: true, arith: true, catch: false}
+	// every body of 1-4 goals (thorough: 1-5) over {nondeterministic goal, !, fail, local cut}, in three shapes and two query orders
+	maxLen := 4
+	if tier == "thorough" {
+		maxLen = 5
+	}
+	skel := skeletonBodies([]string{"m", "!", "f", "c"}, maxLen)
 	runProgProperty("C03", outDir, seed, tier, func(r *rng, i int) *progCase {
+		if i < len(skel) {
+			return &progCase{prog: skeletonProgram(skel[i], i%3+3*0), note: "skeleton"}
+		}
+		if i < 2*len(skel) && tier == "thorough" {
+			return &progCase{prog: skeletonProgram(skel[i-len(skel)], (i+1)%3), note: "skeleton"}
+		}
 		return &progCase{prog: genProgram(r, f)}
 	}, 1000, 8000,
 		"random programs as for C01 plus: '!' as a direct conjunct of clause bodies and of top-level disjuncts, cuts inside call/1, \\+, once/1, findall/3 goals, if-then(-else) and once with cut-free branches, nondeterministic goals before and after the cut; up to 12 answers compared as sequences; distinct by program+query text; non-trivial = at least one answer or an error")
@@ -323,7 +335,16 @@ func runC03(outDir string, seed int64, tier string) {
 
 func runC04(outDir string, seed int64, tier string) {
 	f := feat{cut: true, neg: true, callN: true, findall: true, nestedOr: true, topOr: true, arith: true, catch: true, builtinErr: true}
+	// every body of 1-3 goals (thorough: 1-4) over {nondeterministic goal, throw, exiting catch, nested exiting catches, catch around an error, !}
+	maxLen := 3
+	if tier == "thorough" {
+		maxLen = 4
+	}
+	skel := skeletonBodies([]string{"m", "x", "k", "K", "e", "!"}, maxLen)
 	runProgProperty("C04", outDir, seed, tier, func(r *rng, i int) *progCase {
+		if i < len(skel) {
+			return &progCase{prog: skeletonProgram(skel[i], i%2+3*(i/2%2)), note: "skeleton"}
+		}
 		return &progCase{prog: genProgram(r, f)}
 	}, 1000, 8000,
 		"random programs as for C03 plus catch/3 and throw/1 at any nesting with balls that do or do not unify with the catchers and share variables with the goal, built-in errors (type, instantiation, evaluation), throws after a catch/3 goal has exited and after backtracking into it; answers and the final error term compared; distinct by program+query text; non-trivial = at least one answer or an error")
